@@ -515,8 +515,8 @@ def run_sequences(run: lib.Run, prefix, seqs: list, label: str) -> None:
 def run_random(run: lib.Run, prefix, scale: int = 1) -> None:
     r = random.Random(run.seed * 1000003 + 15)
     quick = run.tier == "quick"
-    small = [gen_sequence(r, False) for _ in range((400 if quick else 4000) * scale)]
-    big = [gen_sequence(r, True) for _ in range((12 if quick else 80) * scale)]
+    small = [gen_sequence(r, False) for _ in range((1500 if quick else 6000) * scale)]
+    big = [gen_sequence(r, True) for _ in range((30 if quick else 120) * scale)]
     run_sequences(run, prefix, small, "random-small")
     run_sequences(run, prefix, big, "random-big")
 
@@ -697,7 +697,7 @@ def strip(rec: dict) -> dict:
 def run_hammer(run: lib.Run, prefix, r: random.Random, scale: int) -> None:
     """2–8 threads on one instrumented cache; sequential replay in lock-acquisition order"""
     quick = run.tier == "quick"
-    rounds = (2 if quick else 6) * scale
+    rounds = (3 if quick else 8) * scale
     n_ops = 150 if quick else 400
     jobs = []
     for nthreads in range(2, 9):
@@ -771,7 +771,7 @@ def linearisations(recs: list):
 def run_tiny(run: lib.Run, prefix, r: random.Random, scale: int, instrument: bool = False) -> None:
     """black-box tiny concurrent histories, brute-force linearisability against the model"""
     quick = run.tier == "quick"
-    n_hist = (120 if quick else 1200) * scale
+    n_hist = (300 if quick else 2000) * scale
     hists = []
     for _ in range(n_hist):
         nthreads = r.choice([2, 2, 3, 3, 4])
